@@ -417,12 +417,25 @@ pub fn leak(args: &[String]) -> i32 {
         let _ = catch_unwind(AssertUnwindSafe(|| if job.mode == "seed" { g.generate() } else { g.generate_from_arbitrary(&input) }));
         let ev = verif::stop_recording();
         drop(g);
+        // Heap!Unshared on the real run: no cell is held by two stack slots at once
+        let mut ids: Vec<u32> = Vec::new();
+        let mut shared = 0usize;
+        for e in &ev {
+            ids.truncate(e.kept);
+            ids.extend_from_slice(&e.pushed_ids);
+            if !e.pushed_ids.is_empty() {
+                let mut seen = std::collections::HashSet::new();
+                if !ids.iter().all(|i| seen.insert(*i)) {
+                    shared += 1;
+                }
+            }
+        }
         let cyc_at = ev.iter().position(|e| e.cycle);
         let (cyc_op, cyc_ev) = match cyc_at { Some(i) => (ev[i].op.map(|o| o.as_u8() as i64).unwrap_or(-1), i as i64 + 1), None => (-1, 0) };
         let _ = &order;
         lines.push(serde_json::to_string(&json!({"id": job.id, "P": job.cfg.p, "ok": matches!(res, Ok(true)), "leaked": after - before,
             "after_reset": if job.heap { mid - before } else { 0 }, "calls": job.warm + 1,
-            "cycle": cyc_at.is_some(), "cycle_op": cyc_op, "cycle_event": cyc_ev, "events": ev.len()})).unwrap());
+            "shared": shared, "cycle": cyc_at.is_some(), "cycle_op": cyc_op, "cycle_event": cyc_ev, "events": ev.len()})).unwrap());
     }
     let mut out = std::io::BufWriter::new(std::fs::File::create(&args[1]).unwrap());
     for l in lines { writeln!(out, "{}", l).unwrap(); }
